@@ -1,0 +1,22 @@
+//go:build verif
+
+package aio
+
+// Contracts for the verif engine (/verif). Comment-only: no code is compiled
+// from this file with or without the tag.
+
+// Assumed contracts of interface methods (used at call sites of verified functions).
+
+//@ func (AIO).EnqueueCQE
+//@ iface
+//@ records enqueue_cqe
+
+//@ func (Plugin).Enqueue
+//@ iface
+//@ records plugin_enqueue
+
+//@ func (Plugin).String
+//@ iface
+
+//@ func (Plugin).Type
+//@ iface
